@@ -42,6 +42,8 @@ CLAUSES = {
     "B.test.summary": "test_data returns Total == number of labelled samples inside the range (unlabelled ones are set aside), Wrong == number of appended classes that differ "
                       "from the true labels, Percentage correct == 1-Wrong/Total (1e-12); evaluate() reports the same three numbers for all testing data accumulated so far, "
                       "also after a continued refinement, and gives the same answer when queried twice",
+    "B.history.caller_array": "the sample array a caller hands to DataSet(...) still holds the caller's samples after __call__ (the same raw data may be wrapped and evaluated again "
+                              "and must then receive the same classes: 'evaluating further data does not change the classes assigned to earlier data')",
     "B.history.stable": "after every operation the previously calculated test classes are an unchanged prefix of get_calculated_classes_testset(); evaluating earlier __call__ "
                         "data again returns the same classes and the per-class densities at the earlier positions are unchanged (1e-12) unless the estimators were refined in between "
                         "(then B.class.argmax is re-evaluated against the refined estimators instead); DataSets, summaries and class arrays handed to the caller earlier still equal "
@@ -314,7 +316,8 @@ def run_case(ctx, case):
         """__call__ on a fresh DataSet; returns classes or None"""
         site = M + "__call__"
         before = np.asarray(cobj.get_calculated_classes_testset(), dtype=float)
-        ds = cobj.get_learning_data() if from_learning else DataSet((Q.copy(), lab.copy()), name="Q")
+        Qin = Q.copy()                                        # the array the "caller" owns and may evaluate again
+        ds = cobj.get_learning_data() if from_learning else DataSet((Qin, lab.copy()), name="Q")
         I = np.where(inside)[0]
         n_out = len(Q) - len(I)
         if len(I) == 0:
@@ -333,6 +336,10 @@ def run_case(ctx, case):
         ok, out, text = guarded(ctx, d, "B.range.removed", site, "raises", lambda: cobj(ds))
         if not ok:
             return None
+        if not from_learning:
+            ctx.check("B.history.caller_array", bool(np.array_equal(Qin, Q)), site, "caller-array-overwritten",
+                      "the sample array handed to DataSet(...) was overwritten by the evaluation (max change %.3e): evaluating the same array again classifies other positions"
+                      % float(np.abs(Qin - Q).max() if Qin.shape == Q.shape and Qin.size else 0.0))
         P = Q[I] if from_learning else pos(Q[I])
         got = np.asarray(out.get_data()[0], dtype=float).reshape(out.get_length(), -1) if out.get_length() else np.zeros((0, d))
         got_c = np.asarray(out.get_data()[1], dtype=float).ravel()
